@@ -668,7 +668,8 @@ def explore(rec, env, cfg, tier, roots, depth):
 
 
 def shards(tier, seed):
-    return [((li, pp), op) for li in LISTENERS for pp in (False, True) for op in OPS]
+    first = base_ops(M())
+    return [((li, pp), op) for li in LISTENERS for pp in (False, True) for op in first]
 
 
 def _hist(h):
